@@ -5,6 +5,7 @@ package main
 import (
 	"errors"
 	"fmt"
+	"strings"
 
 	mc "github.com/ddddddO/gtree/verifmc"
 )
@@ -95,6 +96,11 @@ func init() {
 					dr := NewDrv(op, doc)
 					dr.ReaderFailAfter, dr.ErrFlavour = len(doc)/2+1, fl
 					pdoc := doc[:len(doc)/2+1]
+					if i := strings.LastIndexByte(pdoc, '\n'); i >= 0 {
+						pdoc = pdoc[:i+1] // the complete lines delivered before the failure
+					} else {
+						pdoc = ""
+					}
 					pd := NewDrv(op, pdoc)
 					pd.Simple, pd.NoYield = true, true
 					pr := pd.New()
@@ -117,8 +123,14 @@ func init() {
 					}
 					d := NewDrv(op, doc)
 					d.ReaderFailAfter = i
-					// is the delivered prefix itself rejected by a healthy simple-mode run?
-					pd := NewDrv(op, doc[:i])
+					// are the complete lines delivered before the failure themselves rejected by a healthy simple-mode run?
+					cl := doc[:i]
+					if k := strings.LastIndexByte(cl, '\n'); k >= 0 {
+						cl = cl[:k+1]
+					} else {
+						cl = ""
+					}
+					pd := NewDrv(op, cl)
 					pd.Simple, pd.NoYield = true, true
 					pr := pd.New()
 					func() {
